@@ -26,6 +26,11 @@ pub struct SeqCase {
     /// no request is outstanding afterwards, and the next send goes to the next peer.
     #[serde(default)]
     pub dead: u8,
+    /// REQ only: bit k set = the k-th recv call, if in turn, is polled while the reply has not
+    /// arrived yet and then DROPPED (a timeout). It was not a completed recv: the request is
+    /// still outstanding, so the next send is out of turn and the next recv gets the reply.
+    #[serde(default)]
+    pub cancel: u8,
 }
 
 fn show_calls(c: &[bool]) -> String {
@@ -62,6 +67,10 @@ pub fn seq_outcome(c: &SeqCase) -> Outcome {
         o.class("req-with-failing-sends");
         o.nontrivial = true;
     }
+    if c.cancel != 0 {
+        o.class("req-with-abandoned-recvs");
+        o.nontrivial = true;
+    }
     let (r, panics) = capture_panics(|| {
         run_sim(async move {
             let c = c2;
@@ -91,6 +100,7 @@ pub fn seq_outcome(c: &SeqCase) -> Outcome {
             let mut registered = vec![true; c.peers];
             let mut broken = vec![false; c.peers];
             let mut sends_seen = 0usize;
+            let mut recvs_seen = 0usize;
             let mut k = 0usize; // message counter
             let mut supplied = 0usize;
             for (step, call) in c.calls.iter().enumerate() {
@@ -144,8 +154,9 @@ pub fn seq_outcome(c: &SeqCase) -> Outcome {
                             }
                             if c.req {
                                 awaiting = Some(target);
-                                // auto-answering raw REP
-                                links[target].raw_send_now(&[vec![], format!("reply-{}", k).into_bytes()]);
+                                // the raw REP answers; its reply arrives when the application
+                                // next calls recv without abandoning it
+                                links[target].raw_send(&[vec![], format!("reply-{}", k).into_bytes()]);
                             } else {
                                 awaiting = None;
                             }
@@ -177,6 +188,25 @@ pub fn seq_outcome(c: &SeqCase) -> Outcome {
                     }
                 } else {
                     // ---- recv
+                    if c.req {
+                        let abandon = (c.cancel >> (recvs_seen % 8)) & 1 == 1 && awaiting.is_some();
+                        recvs_seen += 1;
+                        if abandon {
+                            let a = sim.recv(s);
+                            match sim.run(a).await {
+                                Ok(None) => sim.cancel(a),
+                                other => {
+                                    fail!(f, "C08/REQ/recv-completes-before-the-reply-arrived", "{}: {:?}", ctx_s, other.map(|o| o.map(|o| o.err_text().map(|s| s.to_string()))));
+                                    return f;
+                                }
+                            }
+                            // nothing changed: the request is still outstanding
+                            continue;
+                        }
+                        if let Some(t) = awaiting {
+                            links[t].to_lib.deliver_all();
+                        }
+                    }
                     let a = sim.recv(s);
                     let mut want_req: Option<(usize, Vec<u8>)> = None;
                     let mut bad_supplied = false;
@@ -588,20 +618,27 @@ pub fn run(ctx: &Ctx) -> (Report, PropertyMeta) {
         for code in 0..(1usize << len) {
             let calls: Vec<bool> = (0..len).map(|i| (code >> i) & 1 == 1).collect();
             for peers in 0..=2 {
-                cases.push(SeqCase { req: true, calls: calls.clone(), peers, bad: 0, dead: 0 });
-                cases.push(SeqCase { req: false, calls: calls.clone(), peers, bad: 0, dead: 0 });
+                cases.push(SeqCase { req: true, calls: calls.clone(), peers, bad: 0, dead: 0, cancel: 0 });
+                cases.push(SeqCase { req: false, calls: calls.clone(), peers, bad: 0, dead: 0, cancel: 0 });
                 // REQ with some sends hitting a connection that has just died
                 let sends = calls.iter().filter(|c| **c).count();
                 if peers > 0 && sends > 0 && len <= 6 {
                     for dead in 1..(1u32 << sends.min(4)) {
-                        cases.push(SeqCase { req: true, calls: calls.clone(), peers, bad: 0, dead: dead as u8 });
+                        cases.push(SeqCase { req: true, calls: calls.clone(), peers, bad: 0, dead: dead as u8, cancel: 0 });
+                    }
+                }
+                // REQ with some in-turn recvs abandoned before the reply arrives
+                let recvs_r = calls.iter().filter(|c| !**c).count();
+                if peers > 0 && recvs_r > 0 && len <= 6 {
+                    for cancel in 1..(1u32 << recvs_r.min(4)) {
+                        cases.push(SeqCase { req: true, calls: calls.clone(), peers, bad: 0, dead: 0, cancel: cancel as u8 });
                     }
                 }
                 // REP with some malformed requests among the supplied ones
                 let recvs = calls.iter().filter(|c| !**c).count();
                 if peers > 0 && recvs > 0 && len <= 6 {
                     for bad in 1..(1u32 << recvs.min(5)) {
-                        cases.push(SeqCase { req: false, calls: calls.clone(), peers, bad: bad as u8, dead: 0 });
+                        cases.push(SeqCase { req: false, calls: calls.clone(), peers, bad: bad as u8, dead: 0, cancel: 0 });
                     }
                 }
             }
@@ -663,13 +700,14 @@ pub fn run(ctx: &Ctx) -> (Report, PropertyMeta) {
     health_abs(&mut report, "has-out-of-turn-call", 500);
     health_abs(&mut report, "rep-with-malformed-requests", 500);
     health_abs(&mut report, "req-with-failing-sends", 500);
+    health_abs(&mut report, "req-with-abandoned-recvs", 500);
     health_abs(&mut report, "overlapping-requests", 500);
     health_abs(&mut report, "partial-writes", 300);
     health_abs(&mut report, "several-clients-announcing-an-empty-identity", 300);
 
     let meta = PropertyMeta {
         level: "exploration",
-        rule: "(a) exhaustive call sequences over {send, recv} on REQ and REP with 0..2 peers (for REP also with every subset of the supplied requests malformed: delimiter last, which must be rejected or dropped without moving the state; for REQ also with every subset of the first four sends hitting a connection whose writes have just begun to fail: such a send is not accepted, so no request is outstanding after it, the next recv is out of turn and the next send goes to the next peer of the rotation) run in lock-step with a reference state machine: an out-of-turn call must fail, hand the same message back (ReturnToSender), grow no connection's wire, and leave the machine's subsequent behaviour unchanged; an in-turn send must write exactly [empty]+message on exactly the right connection. (b) proptest histories with 1..5 concurrent requesters (library REQ sockets over harness pipes, or raw peers) against one echoing REP under generated scheduling, segmentation and partial writes: every client receives exactly the replies to its own tagged requests, in order, and each connection's wire carries only that client's replies. Non-trivial: (a) the sequence contains an out-of-turn call, (b) >= 2 clients with overlapping outstanding requests; distinct by case".into(),
+        rule: "(a) exhaustive call sequences over {send, recv} on REQ and REP with 0..2 peers (for REP also with every subset of the supplied requests malformed: delimiter last, which must be rejected or dropped without moving the state; for REQ also with every subset of the first four sends hitting a connection whose writes have just begun to fail: such a send is not accepted, so no request is outstanding after it, the next recv is out of turn and the next send goes to the next peer of the rotation; and with every subset of the first four in-turn recvs polled before the reply has arrived and then dropped - such a recv did not happen: the request stays outstanding, the next send is out of turn, the next recv gets the reply) run in lock-step with a reference state machine: an out-of-turn call must fail, hand the same message back (ReturnToSender), grow no connection's wire, and leave the machine's subsequent behaviour unchanged; an in-turn send must write exactly [empty]+message on exactly the right connection. (b) proptest histories with 1..5 concurrent requesters (library REQ sockets over harness pipes, or raw peers) against one echoing REP under generated scheduling, segmentation and partial writes: every client receives exactly the replies to its own tagged requests, in order, and each connection's wire carries only that client's replies. Non-trivial: (a) the sequence contains an out-of-turn call, (b) >= 2 clients with overlapping outstanding requests; distinct by case".into(),
         assumptions: vec!["a second recv on a REP that already holds a request is not refused by the statement; the model lets it fetch the next request and makes the latest requester current".into()],
         exhaustive: false,
     };
